@@ -33,7 +33,7 @@
 //  2. KeyShareHandler.handleEvent is unexported; Trigger performs its three steps (GetEonForBlockNumber,
 //     ConstructDecryptionKeyShares, Messaging.SendMessage) synchronously and without retry options.
 //  3. Gnosis: the row of current_decryption_trigger is written with the caller's slot / tx pointer through the real
-//     SetCurrentDecryptionTrigger query exactly as Keyper.triggerDecryption does (newslot.go:261), instead of
+//     SetCurrentDecryptionTrigger query exactly as Keyper.triggerDecryption does (newslot.go:231-254), instead of
 //     running the slot handler, because the slot handler chooses the identities itself. The shutter service keyper
 //     never records a trigger (its Get/SetCurrentDecryptionTrigger queries are unused), so neither does the rig.
 //  4. Handlers whose fields are unexported and that have no constructor (gnosis.DecryptionKeySharesHandler,
@@ -422,7 +422,7 @@ func NewNode(ctx context.Context, fx *Fixture, index int, fl Flavour, opts DBOpt
 	switch fl {
 	case Core:
 	case Gnosis:
-		// keyperimpl/gnosis/keyper.go:104-106: the gnosis handlers go on the raw p2p, unwrapped, BEFORE the core ones
+		// keyperimpl/gnosis/keyper.go:103-105: the gnosis handlers go on the raw p2p, unwrapped, BEFORE the core ones
 		cfg := &gnosis.Config{InstanceID: fx.InstanceID, MaxNumKeysPerMessage: maxKeys}
 		cfg.Gnosis = &gnosis.GnosisConfig{Node: node, Contracts: gnosis.NewGnosisContractsConfig(),
 			EncryptedGasLimit: 1_000_000, MinGasPerTransaction: 21_000, MaxTxPointerAge: 5,
@@ -433,7 +433,7 @@ func NewNode(ctx context.Context, fx *Fixture, index int, fl Flavour, opts DBOpt
 		n.w.AddMessageHandler(gnosis.VerifNewDecryptionKeysHandler(n.pool))
 		messaging = gnosis.NewMessagingMiddleware(n.w, n.pool, cfg)
 	case Service:
-		// keyperimpl/shutterservice/keyper.go:79-81
+		// keyperimpl/shutterservice/keyper.go:78-80
 		cfg := &shutterservice.Config{InstanceID: fx.InstanceID, MaxNumKeysPerMessage: maxKeys,
 			Chain: &shutterservice.ChainConfig{Node: node, Contracts: shutterservice.NewContractsConfig()}}
 		shares, dkeys := &shutterservice.DecryptionKeySharesHandler{}, &shutterservice.DecryptionKeysHandler{}
@@ -458,18 +458,18 @@ func NewNode(ctx context.Context, fx *Fixture, index int, fl Flavour, opts DBOpt
 	}
 	// the kprconfig.Config each flavour's NewKeyper derives (only the fields the handlers read)
 	n.Core = &kprconfig.Config{InstanceID: fx.InstanceID, Ethereum: node, MaxNumKeysPerMessage: maxKeys}
-	// keyper/keyper.go:166-172
+	// keyper/keyper.go:161-166
 	messaging.AddMessageHandler(
 		epochkghandler.NewDecryptionKeyHandler(n.Core, n.pool),
 		epochkghandler.NewDecryptionKeyShareHandler(n.Core, n.pool),
 		epochkghandler.NewEonPublicKeyHandler(n.Core, n.pool),
 	)
 	if fl == SnapshotKeyper {
-		// keyperimpl/snapshot/keyper.go:80 (keyper.WithMessageHandler: added after the core handlers, keyper.go:172)
+		// keyperimpl/snapshot/keyper.go:77 (keyper.WithMessageHandler: added after the core handlers, keyper.go:167)
 		messaging.AddMessageHandler(snapshotkeyper.NewDecryptionTriggerHandler(
 			snapshotkeyper.Config{InstanceID: fx.InstanceID, Ethereum: node, MaxNumKeysPerMessage: maxKeys}, n.pool, n.trig))
 	}
-	// keyper/keyper.go:194-201
+	// keyper/keyper.go:188-195
 	n.ksh = &epochkghandler.KeyShareHandler{
 		InstanceID:           n.Core.GetInstanceID(),
 		KeyperAddress:        n.Core.GetAddress(),
@@ -495,7 +495,7 @@ func (n *Node) SetDB(st *kdb.DB) { n.srv.SetState(st) }
 // Pool gives direct access to the node's database through the real query packages.
 func (n *Node) Pool() *pgxpool.Pool { return n.pool }
 
-// release is the body of KeyShareHandler.handleEvent (keyper/epochkghandler/service.go:46-75), DEVIATION 2.
+// release is the body of KeyShareHandler.handleEvent (keyper/epochkghandler/service.go:46-76), DEVIATION 2.
 func (n *Node) release(ctx context.Context, trig *epochkghandler.DecryptionTrigger) ([]p2pmsg.Message, error) {
 	block, err := int64FromUint64(trig.BlockNumber)
 	if err != nil {
@@ -532,7 +532,7 @@ func (n *Node) Trigger(ctx context.Context, block uint64, identityPreimages [][]
 		raw = append(raw, id)
 	}
 	if n.Flavour == Gnosis {
-		// DEVIATION 3: Keyper.triggerDecryption, keyperimpl/gnosis/newslot.go:248-267
+		// DEVIATION 3: Keyper.triggerDecryption, keyperimpl/gnosis/newslot.go:231-254
 		b, err := int64FromUint64(block)
 		if err != nil {
 			return nil, err
